@@ -30,7 +30,7 @@ EXTRA_STUBS = dyn.EXTRA_STUBS
 GROUP_BY_QUERY = True
 REQUIRED_WITNESSES = ['same_object', 'same_layout', 'success', 'failure', 'bench_params']
 STUBS, ASSUMPTIONS = common.STUBS, common.ASSUMPTIONS
-BOUNDS = dict(quick="A: shape [2,1], S=2,O=2,P=1; actions exploit / subnet scan / process scan / escalation on the first host; B variants: same object, same layout other content, other names, other sizes; B's construct / reset / step inserted before each of A's construct / reset / step / decode",
+BOUNDS = dict(quick="A: shape [2,1], S=2,O=2,P=1; actions exploit / subnet scan / escalation on the first host (by flat index; exploit and escalation also by parameter vector with parameterised spaces on both sides); B variants: same object, same layout other content, other names, other sizes; B's construct / reset / step inserted before each of A's construct / reset / step / decode",
               thorough="adds A shape [1,1,1] and every action kind")
 def prefer(r):
     return common.prefer(r) if getattr(r, 'w', None) is not None and getattr(r, 'A', None) is not None else []
@@ -41,9 +41,9 @@ VARIANTS = ('object', 'content', 'names', 'sizes')
 def queries(tier, seed=0):
     qs = []
     shapes = [Shape([2, 1], 2, 2, 1)] + ([Shape([1, 1, 1], 2, 2, 1)] if tier != 'quick' else [])
-    kinds = [('exploit', 's1'), ('subnet_scan', None), ('process_scan', None), ('privesc', 'p0')]
+    kinds = [('exploit', 's1'), ('subnet_scan', None), ('privesc', 'p0')]
     if tier != 'quick':
-        kinds += [('service_scan', None), ('os_scan', None)]
+        kinds += [('process_scan', None), ('service_scan', None), ('os_scan', None)]
     for sh in shapes:
         for kind, nm in kinds:
             for var in VARIANTS:
@@ -52,9 +52,13 @@ def queries(tier, seed=0):
                         continue
                     qs.append(dict(shape=sh.to_json(), kind=kind, name=nm, os=None, target=[1, 0],
                                    b_variant=var, b_pos=pos))
-    for d in list(qs):
-        if d['kind'] in ('exploit', 'privesc') and d['b_pos'] in (0, 3) and d['b_variant'] in ('object', 'content'):
-            qs.append(dict(d, param=True))
+    # the same with parameterised action spaces on both sides
+    for sh in shapes[:1]:
+        for kind, nm in (('exploit', 's1'), ('privesc', 'p0')):
+            for var in ('object', 'content'):
+                for pos in (0, 2):
+                    qs.append(dict(shape=sh.to_json(), kind=kind, name=nm, os=None, target=[1, 0],
+                                   b_variant=var, b_pos=pos, param=True))
     for name in ('tiny-gen', 'small-gen'):
         qs.append(dict(kind='bench_params', name=name, no_reach=True))
     return qs
@@ -136,13 +140,13 @@ def run_a(src, q, w, A, scripted, before=None, param=False):
     hook(0)
     env = m_env.NASimEnv(w.scenario, fully_obs=False, flat_obs=not param, flat_actions=not param)
     o0, _ = env.reset()
-    out['reset_obs'] = [sx.znum(c) for c in (o0.cells() if isinstance(o0, npmodel.SArray) else o0)]
+    out['reset_obs'] = [sx.znum(c) for c in (o0.cells() if isinstance(o0, npmodel.SArray) else o0.flatten())]
     hook(1)
     pre = scen.symbolic_state(w, env.current_state)
     hook(2)
     stubs.rewind_draws(scripted)
     o, reward, done, lim, info = env.step(dyn.encode(env, w, A, not param))
-    out['obs'] = [sx.znum(c) for c in (o.cells() if isinstance(o, npmodel.SArray) else o)]
+    out['obs'] = [sx.znum(c) for c in (o.cells() if isinstance(o, npmodel.SArray) else o.flatten())]
     out['reward'] = spec.real(sx.znum(reward))
     out['done'] = sx.zbool(done)
     out['info'] = info_terms(info)
